@@ -1,5 +1,6 @@
 CONSTANTS
-  MaxOps = 7
+  MaxOps = 4
+  MaxReq = 3
   Free = FALSE
 SPECIFICATION Spec
 INVARIANT Emit
